@@ -227,6 +227,8 @@ def gen_value_arg(rng, prop):
             return ['tuple', [['int', 1], ['str', 's']]]
         return ['dict', [['k', ['int', 2]]]]
     if prop == 'C09':
+        if r < 0.2:
+            return ['oneof', [1, 2, 3]]      # a search-space placeholder (pure symbolic)
         if r < 0.5:
             return gen_plain(rng)
         if r < 0.7:
@@ -276,7 +278,7 @@ def gen_op(rng, prop):
     if k == 'd_pop':
         a['default'] = rng.random() < 0.5
     if k in ('d_update', 'd_ior'):
-        a['items'] = [[gen_key(rng, dotted=True), gen_value_arg(rng, prop)]
+        a['items'] = [[gen_key(rng, dotted=prop != 'C09'), gen_value_arg(rng, prop)]
                       for _ in range(rng.randint(0, 3))]
         a['form'] = rng.choice(['dict', 'pairs', 'kwargs'])
     if k == 'rebind':
@@ -359,8 +361,20 @@ class Forest:
         self.fault_fired = 0
 
     def callback_for(self, holder):
+        """A change callback for a Dict/List.  Clones of the container carry the
+        same callback object, so the receiver is derived from the event itself:
+        absolute path of an updated field minus its key relative to the receiver."""
         def cb(updates):
-            self._on_event(holder[0], updates)
+            recv = holder[0]
+            for rel, u in updates.items():
+                try:
+                    n = len(u.path.keys) - len(rel.keys)
+                    root = u.target.sym_root
+                    recv = pg.KeyPath(list(u.path.keys[:n])).query(root) if n else root
+                except Exception:  # pylint: disable=broad-except
+                    pass
+                break
+            self._on_event(recv, updates)
         return cb
 
     def _on_event(self, receiver, updates):
@@ -534,7 +548,8 @@ def resolve_path(forest, node, path_desc):
 
 class Outcome:
     __slots__ = ('status', 'result', 'exc', 'new_roots', 'target', 'root_index', 'written',
-                 'skipped', 'batch', 'notify_parents', 'skip_notification', 'target_path')
+                 'skipped', 'batch', 'notify_parents', 'skip_notification', 'target_path',
+                 'complex_batch')
 
     def __init__(self):
         self.status = 'skipped'
@@ -549,6 +564,7 @@ class Outcome:
         self.notify_parents = True
         self.skip_notification = None
         self.target_path = None
+        self.complex_batch = False
 
 
 def execute(forest, op, mirror=None):
@@ -592,7 +608,7 @@ def _v(forest, a, name='v'):
 
 def op_l_setitem(f, t, a, out):
     i = resolve_index(t, a['i'])
-    out.written = [out.target_path + [i]]
+    out.written = [out.target_path + [i + len(t) if -len(t) <= i < 0 else i]]
     t[i] = _v(f, a)
 
 
@@ -608,7 +624,7 @@ def op_l_getslice(f, t, a, out):
 
 def op_l_delitem(f, t, a, out):
     i = resolve_index(t, a['i'])
-    out.written = [out.target_path + [i]]
+    out.written = [out.target_path + [i + len(t) if -len(t) <= i < 0 else i]]
     del t[i]
 
 
@@ -785,7 +801,14 @@ def op_rebind(f, t, a, out):
             continue
         v = materialize(f, vd)
         pairs[pg.KeyPath(keys)] = v
-        written.append(out.target_path + keys)
+        wkeys = list(keys)
+        try:
+            parent = pg.KeyPath(keys[:-1]).query(t) if len(keys) > 1 else t
+            if isinstance(parent, pg.List) and isinstance(wkeys[-1], int) and wkeys[-1] > len(parent):
+                wkeys[-1] = len(parent)       # past the end: appended
+        except Exception:  # pylint: disable=broad-except
+            pass
+        written.append(out.target_path + wkeys)
     if f.case.get('prop') == 'C02':
         ks = [tuple(p.keys) for p in pairs]
         for i, p in enumerate(ks):
@@ -811,6 +834,10 @@ def op_rebind(f, t, a, out):
         pairs[bad] = _Unacceptable()
     out.written = written
     out.batch = True
+    ks = [tuple(w) for w in written]
+    out.complex_batch = any(
+        i != j and (p[:len(q)] == q or (p[:-1] == q[:-1] and isinstance(p[-1], int)))
+        for i, p in enumerate(ks) for j, q in enumerate(ks))
     out.notify_parents = a.get('notify_parents', True)
     out.skip_notification = a.get('skip_notification')
     t.rebind(pairs, raise_on_no_change=False, notify_parents=out.notify_parents,
@@ -926,7 +953,7 @@ def snapshot(root):
     ids = {}
     if isinstance(root, pg.Symbolic):
         for node, parent, key, path in values.walk(root):
-            ids.setdefault(id(node), tuple(str(k) for k in path))
+            ids.setdefault(id(node), tuple(repr(k) for k in path))
     return js, ids
 
 
@@ -1932,7 +1959,7 @@ def _container_slots(root):
                     sig.append((repr(k), 'node', type(v).__name__))
                 else:
                     sig.append((repr(k), 'leaf', json.dumps(_plain(v), default=repr)))
-            out[tuple(str(p) for p in path)] = (node, sig)
+            out[tuple(repr(p) for p in path)] = (node, sig)
     return out
 
 
@@ -1970,7 +1997,7 @@ class C08Oracle(OracleBase):
         for node, parent, key, path in values.walk(root):
             if isinstance(node, pg.Symbolic) and not isinstance(node, pg.Ref):
                 sealed = node.is_sealed if scope_sealed is None else scope_sealed
-                prot[tuple(str(p) for p in path)] = sealed
+                prot[tuple(repr(p) for p in path)] = sealed
         mixed = False
         for node, parent, key, path in values.walk(root):
             if isinstance(node, pg.Symbolic) and not node.is_sealed:
@@ -2010,7 +2037,7 @@ class C08Oracle(OracleBase):
                    if id(n) in after_by_id and after_by_id[id(n)] != sig]
         self._pre_sealed = t.is_sealed
         self.plan = {'r': r, 'prot': prot, 'changed': changed, 'ref_status': ref_out.status,
-                     'acc': acc, 'tpath': tuple(str(p) for p in t.sym_path.keys),
+                     'acc': acc, 'tpath': tuple(repr(p) for p in t.sym_path.keys),
                      'scope_sealed': scope_sealed, 'mixed': mixed}
 
     def after(self, step, op, out, pre, post, pre_nodes, interrupted):
@@ -2127,3 +2154,260 @@ CANARIES_BY_PROP['C08'] = {
 for _p in ('C07', 'C08'):
     for _n, _c in CANARIES_BY_PROP[_p].items():
         CANARIES[f'{_p}.{_n}'] = _c
+
+
+# ---------------------------------------------------------------------------
+# C09: change notification contract and freshness of derived state
+
+
+def _subscribes(node):
+    if isinstance(node, Rec):
+        return True
+    if isinstance(node, (pg.Dict, pg.List)):
+        return node._onchange_callback is not None  # pylint: disable=protected-access
+    return False
+
+
+def _at(plain_root, keys):
+    """Value at `keys` inside a _plain() snapshot structure, or a marker."""
+    cur = plain_root
+    for k in keys:
+        if not isinstance(cur, list) or not cur:
+            return ['ABSENT']
+        tag = cur[0]
+        if tag in ('L', 'l', 'T'):
+            if not isinstance(k, int) or not -len(cur[1]) <= k < len(cur[1]):
+                return ['ABSENT']
+            cur = cur[1][k]
+        elif tag in ('D', 'd'):
+            hit = [v for kk, v in cur[1] if kk == repr(k)]
+            if not hit:
+                return ['ABSENT']
+            cur = hit[0]
+        elif tag == 'O':
+            hit = [v for kk, v in cur[2] if kk == k]
+            if not hit:
+                return ['ABSENT']
+            cur = hit[0]
+        else:
+            return ['ABSENT']
+    return cur
+
+
+def _derived(node):
+    with pg.allow_partial(None):
+        return {
+            'is_partial': bool(node.is_partial),
+            'missing': json.dumps(_plain(dict(node.sym_missing(flatten=True))), default=repr, sort_keys=True),
+            'nondefault': json.dumps(_plain(dict(node.sym_nondefault(flatten=True))), default=repr,
+                                     sort_keys=True),
+            'puresymbolic': bool(node.sym_puresymbolic),
+            'deterministic': bool(node.is_deterministic),
+        }
+
+
+class C09Oracle(OracleBase):
+    def start(self):
+        self.tainted = set()
+
+    def before(self, step, op, pre):
+        f = self.forest
+        self.pre_plain = [_plain(r) for r in f.roots]
+        self.pre_nodes_by_id = {}
+        for ri, root in enumerate(f.roots):
+            for n, parent, key, path in values.walk(root):
+                if isinstance(n, pg.Symbolic):
+                    self.pre_nodes_by_id[id(n)] = (ri, list(path), n)
+
+    def after(self, step, op, out, pre, post, pre_nodes, interrupted):
+        f = self.forest
+        k = op['k']
+        events = list(f.events)
+        if out.root_index is not None and out.root_index < len(f.roots):
+            silent = any(n == 'notify_on_change' and v is False for n, v in op.get('scopes', [])) \
+                or (k == 'rebind' and out.skip_notification is True) \
+                or (k == 'rebind' and not out.notify_parents)
+            if silent or interrupted or out.status == 'raised':
+                # (a rejected batch may have applied its first elements without
+                # any notification; the property speaks of calls that return)
+                self.tainted.add(id(f.roots[out.root_index]))
+        if interrupted or out.status != 'ok' or out.root_index is None:
+            return
+        ri = out.root_index
+        root = f.roots[ri]
+        scope_notify = True
+        for name, val in op.get('scopes', []):
+            if name == 'notify_on_change':
+                scope_notify = val
+        enabled = scope_notify
+        if k == 'rebind' and out.skip_notification is not None:
+            enabled = not out.skip_notification
+        post_plain = _plain(root)
+        pre_plain = self.pre_plain[ri] if ri < len(self.pre_plain) else None
+        if not enabled:
+            # caches cannot follow a silent mutation: derived state of this
+            # tree is no longer judged in this run
+            self.tainted.add(id(root))
+            if events:
+                self.bad('C09.event-while-disabled', k,
+                         f'{k}{json.dumps(op["a"])[:160]} scopes={op.get("scopes")}: '
+                         f'{len(events)} event(s) delivered although notifications are '
+                         f'disabled / skipped', step)
+            return
+        self.probes['notified_ops'] = self.probes.get('notified_ops', 0) + 1
+        # ---- who must hear about it
+        post_by_id = {}
+        for n, parent, key, path in values.walk(root):
+            if isinstance(n, pg.Symbolic):
+                post_by_id[id(n)] = (list(path), n)
+        written = out.written
+        if written is not None and pre_plain is not None:
+            changed = [w for w in written
+                       if _at(pre_plain, w) != _at(post_plain, w)]
+            stop_at = out.target_path if (k == 'rebind' and not out.notify_parents) else None
+            expected = {}       # id(receiver) -> (node, path, set of rel key strings that changed,
+            #                                       set of rel key strings that were written)
+            for w in written:
+                for pth, n in post_by_id.values():
+                    if not _subscribes(n):
+                        continue
+                    if len(pth) <= len(w) - 1 and w[:len(pth)] == pth:
+                        if stop_at is not None and len(pth) < len(stop_at):
+                            continue
+                        e = expected.setdefault(id(n), (n, pth, set(), set()))
+                        rel = str(pg.KeyPath(w[len(pth):]))
+                        e[3].add(rel)
+                        if w in changed:
+                            e[2].add(rel)
+            shifting = out.complex_batch or k in ('l_insert', 'l_delitem', 'l_pop', 'l_extend') or any(
+                a and a[0] in ('missing', 'insertion') for a in _arg_descs(op)) or \
+                any(v and v[0] == 'insertion' for _, v in op['a'].get('paths', []))
+            got = {}
+            for rid, upd in events:
+                got.setdefault(rid, []).append(upd)
+            batch_shift = k == 'rebind' and shifting
+            for rid, ups in got.items():
+                if rid not in expected and batch_shift:
+                    continue      # receivers move while the batch is applied: not judged
+                if rid not in expected:
+                    who = self.pre_nodes_by_id.get(rid) or (None, post_by_id.get(rid, ['?'])[0], None)
+                    self.bad('C09.unexpected-receiver', k,
+                             f'{k}{json.dumps(op["a"])[:160]}: an object at {who[1]} that is not a '
+                             f'subscribing ancestor of any written location {written} received '
+                             f'{ups[0].keys()}', step)
+                    return
+                if len(ups) > 1:
+                    self.bad('C09.more-than-once', k,
+                             f'{k}{json.dumps(op["a"])[:160]}: receiver at {expected[rid][1]} got '
+                             f'{len(ups)} events for one call: {[sorted(u) for u in ups]}', step)
+                    return
+            for rid, (n, pth, must, may) in expected.items():
+                if must and rid not in got and not batch_shift:
+                    self.bad('C09.not-notified', f'{k}|{type(n).__name__}',
+                             f'{k}{json.dumps(op["a"])[:160]} changed {sorted(must)} below the '
+                             f'{type(n).__name__} at {pth} but it received no event', step)
+                    return
+                if rid in got and not shifting:
+                    keys = set(got[rid][0])
+                    if not must <= keys or not keys <= may:
+                        self.bad('C09.payload-keys', f'{k}|{type(n).__name__}',
+                                 f'{k}{json.dumps(op["a"])[:160]}: receiver at {pth} got keys '
+                                 f'{sorted(keys)}; changed locations {sorted(must)}, written '
+                                 f'{sorted(may)}', step)
+                        return
+                    for rel, (old, new) in got[rid][0].items():
+                        loc = pth + list(pg.KeyPath.parse(rel).keys) if rel else pth
+                        want_old, want_new = _at(pre_plain, loc), _at(post_plain, loc)
+                        if want_old == ['ABSENT']:
+                            want_old = ['MISSING']
+                        if want_new == ['ABSENT']:
+                            want_new = ['MISSING']
+                        if _plain(old) != want_old or _plain(new) != want_new:
+                            self.bad('C09.payload-values', f'{k}|{type(n).__name__}',
+                                     f'{k}{json.dumps(op["a"])[:120]}: event at {pth} key {rel!r} '
+                                     f'carries old={_plain(old)!r:.80} new={_plain(new)!r:.80} but the '
+                                     f'location held {want_old!r:.80} and now holds {want_new!r:.80}',
+                                     step)
+                            return
+            # children before parents
+            order = [rid for rid, _ in events if rid in expected]
+            for i in range(len(order)):
+                for j in range(i + 1, len(order)):
+                    pi, pj = expected[order[i]][1], expected[order[j]][1]
+                    if len(pj) > len(pi) and pj[:len(pi)] == pi:
+                        self.bad('C09.order', k,
+                                 f'{k}: the receiver at {pi} was notified before its descendant '
+                                 f'at {pj}', step)
+                        return
+        # ---- derived state is fresh (ordinary mutation, notifications on)
+        if id(root) not in self.tainted:
+            self._check_fresh(step, op, root, ri)
+
+    def _check_fresh(self, step, op, root, ri):
+        try:
+            # a deep clone is built through the constructors (fresh caches) and,
+            # unlike a JSON round trip, keeps the value specs of typed containers
+            # that sit inside untyped ones
+            with pg.allow_partial(None), pg.as_sealed(False), pg.notify_on_change(False):
+                fresh = root.clone(deep=True)
+        except Exception:  # pylint: disable=broad-except
+            self.probes['fresh_rebuild_failed'] = self.probes.get('fresh_rebuild_failed', 0) + 1
+            return
+        if not isinstance(fresh, pg.Symbolic):
+            return
+        fresh_by_path = {tuple(repr(k) for k in path): n for n, _, _, path in values.walk(fresh)
+                         if isinstance(n, pg.Symbolic)}
+        for n, parent, key, path in values.walk(root):
+            if not isinstance(n, pg.Symbolic) or isinstance(n, pg.Ref):
+                continue
+            m = fresh_by_path.get(tuple(repr(k) for k in path))
+            if m is None or type(m) is not type(n):
+                continue
+            try:
+                a, b = _derived(n), _derived(m)
+            except Exception as e:  # pylint: disable=broad-except
+                self.bad('C09.getter-raises', f'{op["k"]}|{type(e).__name__}',
+                         f'after {op["k"]}: a derived getter of the {type(n).__name__} at '
+                         f'{list(path)} raised {type(e).__name__}: {e}', step)
+                return
+            for key2 in a:
+                if a[key2] != b[key2]:
+                    self.bad('C09.stale', f'{op["k"]}|{key2}',
+                             f'after {op["k"]}{json.dumps(op["a"])[:120]}: {type(n).__name__} at '
+                             f'{list(path)} reports {key2}={a[key2]!r:.400} but a fresh copy of '
+                             f'the same contents reports {b[key2]!r:.400}', step)
+                    return
+
+
+ORACLES['C09'] = C09Oracle
+
+
+CANARIES_BY_PROP['C09'] = {
+    'notify_top_down': _canary(
+        _B, 'Symbolic', '_notify_field_updates', 'reverse=True):', 'reverse=False):'),
+    'cache_reset_skipped': _canary(
+        _B, 'Symbolic', '_notify_field_updates',
+        "target._set_raw_attr('_sym_nondefault_values', None)", 'pass'),
+    'missing_cache_reset_skipped': _canary(
+        _B, 'Symbolic', '_notify_field_updates',
+        "target._set_raw_attr('_sym_missing_values', None)", 'pass'),
+    'relative_path_against_root': _canary(
+        _B, 'Symbolic', '_notify_field_updates',
+        'relative_path = update.path - target.sym_path', 'relative_path = update.path'),
+    'update_skips_notification': _canary(
+        _D, 'Dict', 'update', 'raise_on_no_change=False)', 'raise_on_no_change=False, skip_notification=True)'),
+    'notify_ignores_disabled_scope': _canary(
+        _D, 'Dict', '__setitem__', 'if flags.is_change_notification_enabled() and update:',
+        'if update:'),
+    'parents_not_notified': _canary(
+        _B, 'Symbolic', '_notify_field_updates', 'target = target.sym_parent', 'target = None'),
+    'list_append_double_notify': _canary(
+        _L, 'List', 'append', 'self._notify_field_updates([update])',
+        'self._notify_field_updates([update])\n    self._notify_field_updates([update])'),
+    'old_value_wrong': _canary(
+        _D, 'Dict', '_set_item_without_permission_check',
+        'self.sym_path + key, target, field, old_value, new_value)',
+        'self.sym_path + key, target, field, new_value, new_value)'),
+}
+for _n, _c in CANARIES_BY_PROP['C09'].items():
+    CANARIES[f'C09.{_n}'] = _c
